@@ -2,6 +2,7 @@ import Driver.Common
 import FsicModel.Alias
 import FsicModel.AliasClass
 import FsicModel.AliasFail
+import FsicModel.AliasCtor
 /-
 Executable instance of M8 (alias part) for the correspondence check.  Names are strings; a stored series is an
 array of integers (the harness writes distinct integers, so a cell identifies the write that produced it);
@@ -329,10 +330,60 @@ def handleHier (j : Json) : R String := do
   let w := runEvents (World.init : World String) evs
   pure (joinWith " ; " (w.insts.map (instStr names cols)))
 
+/-! constructor routes (`FsicModel/AliasCtor.lean`) -/
+
+def parseKvs (j : Json) (k : String) : R (List (String × Pay)) := do
+  (← arr j k).toList.mapM fun kv => do
+    match (← kv.getArr?).toList with
+    | [n, v] => pure (← n.getStr?, ← parsePay v)
+    | _ => throw "label/value pair expected"
+
+def routeErrStr : Err → String
+  | .value 3 => "TypeError"
+  | e => errStr e
+
+/-- The series the constructor builds from what it handed to `add_variable` (`n` periods, default 0). -/
+def initStr (n : Nat) (r : Except Err (List (String × Pay))) : String :=
+  match r with
+  | .error e => "ctor:" ++ routeErrStr e
+  | .ok init =>
+    let zero : Array Int := Array.replicate n 0
+    let vars : Except Err (List (String × Array Int)) := init.mapM fun nv => do pure (nv.1, ← E.assign zero nv.2)
+    match vars with
+    | .error e => "ctor:" ++ routeErrStr e
+    | .ok vars => joinWith ";" (vars.map fun nv => nv.1 ++ "=" ++ intsStr nv.2.toList)
+
+/-- kind `alias_ctor_route`: `{route, m, pref, names, strict, n, cols, extra}` → `Y=…;C=…` | `ctor:<error>` |
+    `export:ValueError`.  `route`: `kwargs` (`cols` are the keywords), `from_dataframe` (`cols` = the frame's columns,
+    `extra` = the extra keywords), `linker`, `roundtrip` (`cols` = the plain export: one column per variable). -/
+def handleCtorRoute (j : Json) : R String := do
+  let m ← parsePairs (← obj j "m")
+  let pref ← parseNames (← obj j "pref")
+  let names ← parseNames (← obj j "names")
+  let strict ← bool j "strict"
+  let n ← nat j "n"
+  let cols ← parseKvs j "cols"
+  let extra ← parseKvs j "extra"
+  let route ← str j "route"
+  match instanceAliases m with
+  | .valueError => pure "ctor:ValueError"
+  | .returned a =>
+    if !prefCheck a pref then pure "ctor:ValueError" else
+    match route with
+    | "kwargs" => pure (initStr n (ctorAliased a strict names (Pay.int 0) cols))
+    | "from_dataframe" => pure (initStr n (fromDataframeAliased a strict names (Pay.int 0) cols extra))
+    | "linker" => pure (initStr n (linkerCtorAliased a names (Pay.int 0) cols))
+    | "roundtrip" =>
+      match roundTrip strLe a pref strict names (Pay.int 0) cols with
+      | none => pure "export:ValueError"
+      | some r => pure (initStr n r)
+    | _ => throw s!"bad route {route}"
+
 end Drv.Alias
 
 namespace Drv.Alias
 def handlers : List (String × (Lean.Json → Except String String)) :=
   [("alias_shorten", handleShorten), ("alias_prefcheck", handlePrefCheck), ("alias_rename", handleRename),
-   ("alias_history", handleHistory), ("alias_xhistory", handleXHistory), ("alias_rename_opts", handleRenameOpts), ("alias_hier", handleHier)]
+   ("alias_history", handleHistory), ("alias_xhistory", handleXHistory), ("alias_rename_opts", handleRenameOpts), ("alias_hier", handleHier),
+   ("alias_ctor_route", handleCtorRoute)]
 end Drv.Alias
